@@ -407,8 +407,14 @@ def strict_allowed(cfg, cmd, dev):
     if drv == 'udp':
         if k == 'rfoff':
             return {B}
-        if k in ('noanswer', 'wrongbrty', 'lowercase-brty'):
+        if k == 'noanswer':
             return {T}
+        if k in ('wrongbrty', 'lowercase-brty'):
+            # a datagram that is not a frame for us: skipped (nothing
+            # received in time) or taken as a garbled frame - both are
+            # documented outcomes (the first version of this oracle demanded
+            # the time-out: false alarm on a property-preserving change)
+            return {T, X}
         return None
     if k in ('werr', 'rerr_ack', 'rerr_rsp'):
         if drv != 'rcs380' and k == 'rerr_rsp' and dev[1] == 'ETIMEDOUT' \
